@@ -13,9 +13,11 @@
    strictly increasing order (C10_unique); argmax / argmin return the first position of a largest / smallest element
    (C10_arg_extreme); argsort, for any of the four kinds, assigns every element a position of the sorted lane holding
    that element, the assignment is a duplicate-free list of positions (a permutation), and equal elements are ranked in
-   order of appearance (C10_argsort). *)
+   order of appearance (C10_argsort).  ALONG AN AXIS the index form keeps the shape and every lane of the result is the
+   rank assignment of the corresponding lane of the input (C10_argsort_axis: the lane theorem with argsort as the body;
+   C10_argsort then characterises each lane); argmax / argmin along an axis are the instances of C08_index_reduce_axis. *)
 From Coq Require Import Permutation Sorted.
-From ArrRs Require Import Index Axis Axis_proofs Broadcast_proofs Reduce Along_proofs Sort Sort_proofs Along_uses Order_proofs Argsort_proofs Timsort_proofs Heapsort_proofs Sortkinds_proofs.
+From ArrRs Require Import Index Axis Axis_proofs Broadcast_proofs Reduce Along_proofs Sort Sort_proofs Along_uses Order_proofs Argsort_proofs Timsort_proofs Heapsort_proofs Sortkinds_proofs Argsort_axis.
 
 Theorem C10_merge_sort : forall (T : Type) (ltb : T -> T -> bool),
   (forall x y, ltb x y = true -> le ltb x y) -> (forall x y z, le ltb x y -> le ltb y z -> le ltb x z) ->
@@ -154,3 +156,23 @@ Proof.
   - intros x y z H1 H2. apply Z.ltb_ge in H1, H2. apply Z.ltb_ge. lia.
   - intros x y H1 H2. apply Z.ltb_ge in H1, H2. lia.
 Qed.
+
+Theorem C10_argsort_axis : forall (T : Type) (ltb eqb : T -> T -> bool) (d : T),
+  (forall x y, eqb x y = true <-> x = y) ->
+  (forall x y, ltb x y = true -> le ltb x y) -> (forall x y z, le ltb x y -> le ltb y z -> le ltb x z) ->
+  forall (a : arr T) z k,
+  wf a -> pos_shape (shape a) -> (Z.of_nat (ndim a) < two64)%Z -> axis_ok (ndim a) z ->
+  let ax := norm_nat (ndim a) z in
+  exists R, argsort_arr ltb eqb d a (Some z) (Ok k) = Ok R /\ wf R /\ shape R = shape a /\
+    forall c, in_range (shape a) c ->
+      let ln := lane d a ax (remove_nth c ax) in
+      exists ranks, argsort1 ltb eqb d k ln = Ok ranks /\ get 0 R c = nth (nth ax c 0) (elems ranks) 0.
+Proof.
+  intros T ltb eqb d H1 H2 H3 a z k W P B Hz ax.
+  destruct (argsort_axis_spec ltb eqb d H1 H2 H3 a z k W P B Hz) as (R & E & WR & SR & G).
+  exists R. repeat split; auto. intros c Hc ln. destruct (G c Hc) as [E1 G1]. eexists. split; [exact E1 | exact G1].
+Qed.
+
+Example C10_argsort_axis_nonvacuous :
+  argsort_arr Z.ltb Z.eqb 0%Z (mk [3;1;2; 9;7;8]%Z [2;3]) (Some 1%Z) (Ok Quicksort) = Ok (mk [2;0;1;2;0;1] [2;3]).
+Proof. vm_compute. reflexivity. Qed.
